@@ -455,6 +455,17 @@ impl LogReader {
                 // The physical record is damaged. It is skipped but the fact is remembered so that
                 // readers that cannot tolerate a gap (e.g. manifest recovery) can find out.
                 self.has_skipped_corrupted_records = true;
+
+                if in_fragmented_record {
+                    // The damaged fragment was part of the record being assembled. Gluing the
+                    // remaining fragments together would deliver a record that was never written.
+                    LogReader::log_drop(
+                        data_buffer.len() as u64,
+                        "Error in the middle of a fragmented record.".to_owned(),
+                    );
+                    data_buffer.clear();
+                    in_fragmented_record = false;
+                }
             } else {
                 let record = maybe_record.unwrap();
                 match record.block_type {
@@ -615,12 +626,15 @@ impl LogReader {
             )));
         }
 
-        // Parse the payload
-        let serialized_block = [header_buffer.to_vec(), data_buffer].concat();
-        let block_record: BlockRecord = BlockRecord::try_from(&serialized_block)?;
+        // The whole physical record was consumed from the file whether or not it turns out to be
+        // intact, so the position bookkeeping is updated before the integrity checks.
         self.current_cursor_position += header_buffer.len() + data_bytes_read;
         self.current_block_offset =
             (self.current_block_offset + data_bytes_read) % BLOCK_SIZE_BYTES;
+
+        // Parse the payload
+        let serialized_block = [header_buffer.to_vec(), data_buffer].concat();
+        let block_record: BlockRecord = BlockRecord::try_from(&serialized_block)?;
 
         Ok(block_record)
     }
